@@ -4,6 +4,8 @@
    `C39 spec    ct j next now obs ulp`          → `ok [clause,…]`           (Spec.stepViolations)
    `C39 machine ct now [kind,…] [op,…]`         → `ok [[[ev,…],running,[deadline,…],[inflight,…]],…]`
    `C39 trace   [op,…] [[ev,…],…]`              → `ok [clause,…]`           (Spec.traceViolations)
+   `C39 ctor    period obs|~ halfulp`           → `ok [n,d]|~ T|F`          (Model.ctor, Spec.ctorAgrees); period = [ms,[n,d]] | [td,us]
+   `C39 ctorspec period obs|~`                  → `ok [clause,…]`           (Spec.ctorViolations)
 -/
 import TornadoModel.Base.Wire
 import TornadoModel.C39.Spec
@@ -17,6 +19,14 @@ def decRat (v : V) : Option Rat := do
     let d ← d.nat?
     if d = 0 then none else pure (mkRat n d)
   | _ => none
+
+def decPeriod (v : V) : Option Period := do
+  match ← v.list? with
+  | [.atom "ms", q] => pure (.ms (← decRat q))
+  | [.atom "td", us] => pure (.td (← us.int?))
+  | _ => none
+
+def decObs (v : V) : Option (Option Rat) := if v.isNone then some none else (decRat v).map some
 
 def encRat (q : Rat) : V := .list [.int q.num, .int q.den]
 
@@ -89,6 +99,15 @@ def handle (toks : List String) : String :=
     | some "trace", [ops, evs] =>
       match ops.list? >>= (·.mapM decOp), evs.list? >>= (·.mapM (fun l => l.list? >>= (·.mapM decEv))) with
       | some ops, some evs => ok [.list ((Spec.traceViolations ops evs).map V.atom)]
+      | _, _ => err "bad-arg"
+    | some "ctor", [p, obs, hu] =>
+      match decPeriod p, decObs obs, decRat hu with
+      | some p, some obs, some hu =>
+        ok [(match ctor p with | some c => encRat c | none => .none), V.ofBool (Spec.ctorAgrees p obs hu)]
+      | _, _, _ => err "bad-arg"
+    | some "ctorspec", [p, obs] =>
+      match decPeriod p, decObs obs with
+      | some p, some obs => ok [.list ((Spec.ctorViolations p obs).map V.atom)]
       | _, _ => err "bad-arg"
     | _, _ => err "bad-cmd"
 
